@@ -4,6 +4,15 @@ import json
 import subprocess
 
 CLAIMED = {
+    "C04": dict(level="exploration",
+                text="Seeded search over generated data/reservation/ORG/SEGMENT/CPU/END programs on byte-, word- and 4-byte-granular "
+                     "targets with run lengths at the 512-byte and 64 KiB boundaries, each assembled under several settings of the "
+                     "simulator-owned tuning knobs (private code-buffer size via hook, stdio buffer size, source read chunking); the code "
+                     "file is parsed by an independent reader and compared as an ordered byte stream with an independent memory model; "
+                     "same program under different knobs must give the same file; the golden corpus is re-rendered under the knobs.",
+                note="Trusted: codefile.py reader (from doc/file-formats.md), the statement model (documented meaning of DB/DW/DS etc.), .ori files.",
+                technique="deterministic simulation: tuning-knob/buffer-boundary perturbation with reference-model oracle",
+                design="4. C04"),
     "C18": dict(level="exploration",
                 text="Seeded search over file histories of one long-lived simulated process: 2-4 sources per invocation (golden sources, "
                      "golden sources cut at a random line so that constructs stay open, generated state-setters) checked file by file "
@@ -54,7 +63,7 @@ NA_PURE = {
     "C16": "metamorphic relation over source spelling; CR-LF/INCLUDE variants are different inputs, not schedules or faults",
     "C20": "diagnostic positions are a pure function of include/macro nesting of the input; no clock, fault or cross-file history involved",
 }
-PENDING = {k: "claimed in DESIGN.md; its check is still being built in this commit series" for k in ("C01", "C04", "C19")}
+PENDING = {k: "claimed in DESIGN.md; its check is still being built in this commit series" for k in ("C01", "C19")}
 
 ORDER = ["C01", "C02", "C03", "C04", "C17", "C18", "C19"]
 
